@@ -61,7 +61,7 @@ def case(draw, tier):
         draw(bundle_schema(3)) if kind in (2, 3) else ("TSD", "int", ("TS", "int")) if kind == 4 else draw(tm.schemas(3))
     start = draw(st.sampled_from([0, 0, 2, 40000]))
     horizon = draw(st.integers(3, 24 if big else 10))
-    opts = {"cancel": True, "multi": True, "no_rewrite": True, "inval": draw(st.booleans()), "keys": draw(st.sampled_from([4, 8])),
+    opts = {"cancel": True, "multi": True, "no_rewrite": True, "inval": draw(st.booleans()), "inval_composite": True, "keys": draw(st.sampled_from([4, 8])),
             "whole": True, "whole_dict": True}
     script = draw(tm.history(schema, start, horizon, opts, max_cycles=10 if big else 6))
     cons = []
